@@ -253,3 +253,82 @@ fn e9_commit_after_emptying_an_only_child() {
     let _ = std::fs::remove_file(&p);
     assert_eq!(n, 32);
 }
+
+// E10 (C05): deleting a nested bucket and then its parent in the same transaction must not free pages twice.
+#[test]
+fn e10_delete_nested_then_parent_bucket() {
+    let p = tmp("e10");
+    let db = OpenOptions::new().pagesize(1024).open(&p).unwrap();
+    {
+        let tx = db.tx(true).unwrap();
+        let b = tx.create_bucket("p").unwrap();
+        let c = b.create_bucket("c").unwrap();
+        c.put("k", "v").unwrap();
+        tx.commit().unwrap();
+    }
+    {
+        let tx = db.tx(true).unwrap();
+        {
+            let b = tx.get_bucket("p").unwrap();
+            b.delete_bucket("c").unwrap();
+        }
+        tx.delete_bucket("p").unwrap();
+        tx.commit().unwrap();
+    }
+    let r = db.check();
+    let _ = std::fs::remove_file(&p);
+    r.expect("page accounted twice after deleting a nested bucket and then its parent");
+}
+
+// E11 (C05/C01): a bucket entry merged into its right sibling must not be duplicated by the metadata update at commit.
+#[test]
+fn e11_merge_into_right_sibling_keeps_separator() {
+    fn name(i: u32) -> Vec<u8> { let mut k = format!("b{:03}", i).into_bytes(); while k.len() < 300 { k.push(b'_'); } k }
+    let p = tmp("e11");
+    let db = OpenOptions::new().pagesize(1024).open(&p).unwrap();
+    {
+        let tx = db.tx(true).unwrap();
+        for k in 0..12u32 { tx.create_bucket(name(k)).unwrap(); }
+        tx.commit().unwrap();
+    }
+    {
+        let tx = db.tx(true).unwrap();
+        tx.get_bucket(name(5)).unwrap();        // loaded, so its entry is rewritten at commit
+        tx.delete_bucket(name(4)).unwrap();     // its leaf-mate #5 is merged into the right sibling
+        tx.commit().unwrap();
+    }
+    let r = db.check();
+    let tx = db.tx(false).unwrap();
+    let n = tx.buckets().count();
+    drop(tx);
+    let _ = std::fs::remove_file(&p);
+    r.expect("a bucket entry exists in two leaves after the merge");
+    assert_eq!(n, 11);
+}
+
+// E12 (C01): a commit that leaves the root with one untouched child must not panic.
+#[test]
+fn e12_promote_untouched_page_to_root() {
+    let p = tmp("e12");
+    let db = OpenOptions::new().pagesize(1024).open(&p).unwrap();
+    {
+        let tx = db.tx(true).unwrap();
+        let b = tx.create_bucket("b").unwrap();
+        for i in 0..8u32 { b.put(format!("k{:05}", i), vec![b'v'; 200]).unwrap(); }
+        tx.commit().unwrap();
+    }
+    {
+        let tx = db.tx(true).unwrap();
+        {
+            let b = tx.get_bucket("b").unwrap();
+            for i in 0..6u32 { b.delete(format!("k{:05}", i)).unwrap(); }
+        }
+        tx.commit().unwrap();
+    }
+    db.check().unwrap();
+    let tx = db.tx(false).unwrap();
+    let n = tx.get_bucket("b").unwrap().cursor().count();
+    drop(tx);
+    let _ = std::fs::remove_file(&p);
+    assert_eq!(n, 2);
+}
